@@ -17,7 +17,20 @@ use vh::gen::{self, ParamSpec};
 use vh::rng::{mix, Rng};
 use vh::solve::{self, Cfg, Outcome, Prepared};
 
-fn small_game(rng: &mut Rng, case: u64, only_wmf: bool) -> (String, vh::tree::HNode) {
+fn small_game(rng: &mut Rng, case: u64, only: &str, prop: &str) -> (String, vh::tree::HNode) {
+    let only_wmf = only == "wmf";
+    // which special shapes make sense depends on the methods of the property
+    let fan_slot = match prop {
+        "C07" => case % 4 >= 2,
+        "C05" => case % 4 == 3,
+        _ => false,
+    };
+    if (fan_slot && only.is_empty()) || only == "fan" {
+        // every frontier task meets at one shared chance infoset and one opponent infoset; k >= 9 so
+        // that with three threads (task target 9) the k chance nodes themselves are the tasks
+        let k = rng.range(9, 11);
+        return (format!("shared_chance_fan(k={})", k), gen::shared_chance_fan(rng, k));
+    }
     if case % 4 == 2 || only_wmf {
         // lock-ordering shape: each player's single infoset lies above the other's on some paths
         // and below it on others; enough chance outcomes for the subtrees to be separate tasks
@@ -77,7 +90,7 @@ fn main() {
     let (mut held, mut inconclusive, mut visits, mut draws) = (0u64, 0u64, 0u64, 0u64);
     for case in 0..cases {
         let mut rng = Rng::for_case(seed, &format!("miri-{}", prop), case);
-        let (desc, tree) = small_game(&mut rng, case, args.get(4).map(|s| s == "wmf").unwrap_or(false));
+        let (desc, tree) = small_game(&mut rng, case, args.get(4).map(|s| s.as_str()).unwrap_or(""), &prop);
         let prep = match Prepared::new(&tree) {
             Ok(p) => p,
             Err(e) => {
@@ -87,13 +100,18 @@ fn main() {
             }
         };
         let mut method = *rng.pick(methods);
+        if desc.starts_with("shared_chance_fan") && methods.contains(&SolveMethod::External) {
+            // the shared chance infoset and the blind opponent infoset are met by every task of an
+            // external-sampling pass
+            method = SolveMethod::External;
+        }
         if desc.starts_with("who_moves_first") && method == SolveMethod::Sampled && methods.contains(&SolveMethod::Full) {
             // a sampled chance root selects one subtree per pass, so both move orders never meet
             method = SolveMethod::Full;
         }
         let params = if rng.chance(0.7) { ParamSpec::random(&mut rng) } else { ParamSpec::random_custom(&mut rng) };
         let iters = *rng.pick(&[1u64, 2, 2, 3]);
-        let threads = *rng.pick(&[2usize, 2, 3]);
+        let threads = if desc.starts_with("shared_chance_fan") { 3 } else { *rng.pick(&[2usize, 2, 3]) };
         let sseed = rng.next();
         let sampling = move || if method == SolveMethod::Full { Sampling::Production } else { Sampling::Seeded(sseed) };
         let base_cfg = Cfg { method, iters, max_reg: 0.0, threads: 1, params };
@@ -102,8 +120,11 @@ fn main() {
         let mut sig = String::new();
         let mut what = String::new();
         let mut sched = 0u64;
+        let mut threads_seen: Vec<usize> = Vec::new();
         let base = solve::run(&prep, &base_cfg, Some(Config { flags: solve::ALL_LOGS, sampling: sampling(), jitter_seed: 0 }));
-        let multi = solve::run(&prep, &cfg, Some(Config { flags: solve::ALL_LOGS, sampling: sampling(), jitter_seed: 0 }));
+        // jitter on: under Miri every jitter site is a yield, i.e. a point where the interpreter's
+        // seeded scheduler may switch threads (also while an infoset lock is held)
+        let multi = solve::run(&prep, &cfg, Some(Config { flags: solve::ALL_LOGS | cfr::verif::JITTER, sampling: sampling(), jitter_seed: rng.next() }));
         match (base, multi) {
             (_, Outcome::Panic(m)) => {
                 verdict = "violation";
@@ -114,6 +135,9 @@ fn main() {
                 for e in &o.events {
                     if let cfr::verif::Event::Visit { node, thread, pass, .. } = e {
                         sched = mix(sched ^ (*node as u64) ^ ((*thread as u64) << 52) ^ (*pass << 40));
+                        if !threads_seen.contains(thread) {
+                            threads_seen.push(*thread);
+                        }
                     }
                 }
                 if let Err((s, m)) = vh::props::c05::well_formed(&o, if iters == 0 { 0 } else { 1 }) {
@@ -167,7 +191,7 @@ fn main() {
         }
         println!(
             "{}",
-            json!({"case": case, "verdict": verdict, "signature": sig, "what": what, "cfg": cfg.describe(), "desc": desc, "nodes": prep.flat.nodes.len(),
+            json!({"case": case, "verdict": verdict, "threads_that_processed_nodes": threads_seen.len(), "signature": sig, "what": what, "cfg": cfg.describe(), "desc": desc, "nodes": prep.flat.nodes.len(),
                    "schedule_hash": format!("{:016x}", sched), "tree_hash": format!("{:016x}", tree.structural_hash()),
                    "game": if verdict == "violation" { tree.to_json() } else { json!(tree.brief(80)) }})
         );
